@@ -448,3 +448,290 @@ CASES += [
     dict(name="vx-prime-order-reversed", file="src/repr/vtree.rs", rule="VX", props=["C03", "C14"], expect="is_prime_index:order",
          old="""        l.0 < r.0""", new="""        l.0 > r.0"""),
 ]
+
+# ------------------------------------------------------------------ rules added after the second seeding round
+MODEL = "src/repr/model.rs"
+CNF = "src/repr/cnf.rs"
+SEM = "src/builder/sdd/semantic.rs"
+CASES += [
+    dict(name="he-ord-skips-high", file="src/repr/sdd/binary_sdd.rs", rule="HE", props=["C04"], expect="BinarySDD:ord-fields",
+         old="""        match self.high.cmp(&other.high) {""", new="""        match self.low.cmp(&other.low) {"""),
+    dict(name="he-ord-crossed-fields", file="src/repr/sdd/binary_sdd.rs", rule="HE", props=["C04"], expect="BinarySDD:ord-fields",
+         old="""        match self.high.cmp(&other.high) {""", new="""        match self.high.cmp(&other.low) {"""),
+    dict(name="he-ord-reordered-ok", file="src/repr/sdd/binary_sdd.rs", rule="HE", props=["C04"], expect=None,
+         old="""        match self.low.cmp(&other.low) {
+            core::cmp::Ordering::Equal => {}
+            ord => return ord,
+        }
+        match self.high.cmp(&other.high) {""",
+         new="""        match self.high.cmp(&other.high) {
+            core::cmp::Ordering::Equal => {}
+            ord => return ord,
+        }
+        match self.low.cmp(&other.low) {"""),
+    dict(name="vo-label-order-in-sdd-condition", file=SB, rule="VO", props=["C03"], expect="condition:label-order",
+         old="""            // if f.is_bdd() {
+            //     if f.topvar() == lbl {""",
+         new="""            SddPtr::BDD(bdd) | SddPtr::ComplBDD(bdd) if lbl < bdd.label() => f,
+            // if f.is_bdd() {
+            //     if f.topvar() == lbl {"""),
+    dict(name="vo-label-value-order-in-sdd-condition", file=SB, rule="VO", props=["C03"], expect="condition:label-order",
+         old="""            // if f.is_bdd() {
+            //     if f.topvar() == lbl {""",
+         new="""            SddPtr::BDD(bdd) | SddPtr::ComplBDD(bdd) if lbl.value() < bdd.label().value() => f,
+            // if f.is_bdd() {
+            //     if f.topvar() == lbl {"""),
+    dict(name="dt-compose-shannon-override", file=SB, rule="DT", props=["C03"], expect="compose:truth-table",
+         old="""    /// compile an SDD from an input CNF
+    fn compile_cnf(&'a self, cnf: &Cnf) -> SddPtr<'a> {
+        let mut cvec: Vec<SddPtr> = Vec::with_capacity(cnf.clauses().len());""",
+         new="""    fn compose(&'a self, f: SddPtr<'a>, lbl: VarLabel, g: SddPtr<'a>) -> SddPtr<'a> {
+        let f_hi = self.condition(f, lbl, true);
+        let f_lo = self.condition(f, lbl, false);
+        self.ite(g, f_hi, f_lo)
+    }
+
+    /// compile an SDD from an input CNF
+    fn compile_cnf(&'a self, cnf: &Cnf) -> SddPtr<'a> {
+        let mut cvec: Vec<SddPtr> = Vec::with_capacity(cnf.clauses().len());"""),
+    dict(name="dt-compose-override-same-definition-ok", file=SB, rule="DT", props=["C03"], expect=None,
+         old="""    /// compile an SDD from an input CNF
+    fn compile_cnf(&'a self, cnf: &Cnf) -> SddPtr<'a> {
+        let mut cvec: Vec<SddPtr> = Vec::with_capacity(cnf.clauses().len());""",
+         new="""    fn compose(&'a self, f: SddPtr<'a>, lbl: VarLabel, g: SddPtr<'a>) -> SddPtr<'a> {
+        let v = self.var(lbl, true);
+        let both = self.and(f, self.iff(g, v));
+        self.exists(both, lbl)
+    }
+
+    /// compile an SDD from an input CNF
+    fn compile_cnf(&'a self, cnf: &Cnf) -> SddPtr<'a> {
+        let mut cvec: Vec<SddPtr> = Vec::with_capacity(cnf.clauses().len());"""),
+    dict(name="rn3-condition-skips-canonicalize", file=SB, rule="RN", props=["C04"], expect="condition:RN3:unique_or-caller",
+         old="""                self.canonicalize(v, f.vtree())
+            }
+        }
+    }""",
+         new="""                if v.len() > 2 {
+                    return self.unique_or(v, f.vtree());
+                }
+                self.canonicalize(v, f.vtree())
+            }
+        }
+    }"""),
+    dict(name="lt-set-weight-inserts", file="src/repr/wmc.rs", rule="LT", props=["C07"], expect="var_to_val",
+         old="""        self.var_to_val[n] = Some((low, high));""", new="""        self.var_to_val.insert(n, Some((low, high)));"""),
+    dict(name="lt-set-weight-get-mut-ok", file="src/repr/wmc.rs", rule="LT", props=["C07"], expect=None,
+         old="""        self.var_to_val[n] = Some((low, high));""", new="""        *self.var_to_val.get_mut(n).unwrap() = Some((low, high));"""),
+    dict(name="td-implied-filtered-by-order", file=DN, rule="TD", props=["C06"], expect="implied-set",
+         old="""                let new_assgn = sat.difference_iter().filter(|x| x.label() != cur_v);
+                let r = self.conjoin_implied(new_assgn, BddPtr::true_ptr());
+                sat.pop();
+                r
+            }
+            DecisionResult::SATOrPartial => {
+                let sub = self.topdown_h(cnf, sat, level + 1, cache);
+                let new_assgn = sat.difference_iter().filter(|x| x.label() != cur_v);
+                let r = self.conjoin_implied(new_assgn, sub);
+                sat.pop();
+                r
+            }
+        };
+        let low_bdd""",
+         new="""                let new_assgn = sat.difference_iter().filter(|x| x.label().value() > cur_v.value());
+                let r = self.conjoin_implied(new_assgn, BddPtr::true_ptr());
+                sat.pop();
+                r
+            }
+            DecisionResult::SATOrPartial => {
+                let sub = self.topdown_h(cnf, sat, level + 1, cache);
+                let new_assgn = sat.difference_iter().filter(|x| x.label() != cur_v);
+                let r = self.conjoin_implied(new_assgn, sub);
+                sat.pop();
+                r
+            }
+        };
+        let low_bdd"""),
+    dict(name="td-filter-not-eq-ok", file=DN, rule="TD", props=["C06"], expect=None,
+         old="""                let new_assgn = sat.difference_iter().filter(|x| x.label() != cur_v);
+                let r = self.conjoin_implied(new_assgn, BddPtr::true_ptr());
+                sat.pop();
+                r
+            }
+            DecisionResult::SATOrPartial => {
+                let sub = self.topdown_h(cnf, sat, level + 1, cache);
+                let new_assgn = sat.difference_iter().filter(|x| x.label() != cur_v);
+                let r = self.conjoin_implied(new_assgn, sub);
+                sat.pop();
+                r
+            }
+        };
+        let low_bdd""",
+         new="""                let new_assgn = sat.difference_iter().filter(|x| !(x.label() == cur_v));
+                let r = self.conjoin_implied(new_assgn, BddPtr::true_ptr());
+                sat.pop();
+                r
+            }
+            DecisionResult::SATOrPartial => {
+                let sub = self.topdown_h(cnf, sat, level + 1, cache);
+                let new_assgn = sat.difference_iter().filter(|x| x.label() != cur_v);
+                let r = self.conjoin_implied(new_assgn, sub);
+                sat.pop();
+                r
+            }
+        };
+        let low_bdd"""),
+    dict(name="pm-set-true-keeps-false", file=MODEL, rule="PM", props=["C15"], expect="set:two-sets",
+         old="""            self.true_assignments.insert(label);
+            self.false_assignments.remove(label);""",
+         new="""            self.true_assignments.insert(label);"""),
+    dict(name="pm-get-swapped", file=MODEL, rule="PM", props=["C15", "C09"], expect="get:two-sets",
+         old="""        if self.true_assignments.contains(label) {
+            Some(true)
+        } else if self.false_assignments.contains(label) {
+            Some(false)""",
+         new="""        if self.false_assignments.contains(label) {
+            Some(true)
+        } else if self.true_assignments.contains(label) {
+            Some(false)"""),
+    dict(name="pm-neg-implied-is-implied", file=MODEL, rule="PM", props=["C15", "C09"], expect="lit_neg_implied:two-sets",
+         old="""            Some(v) => v != lit.polarity(),""", new="""            Some(v) => v == lit.polarity(),"""),
+    dict(name="pm-set-order-swapped-ok", file=MODEL, rule="PM", props=["C15"], expect=None,
+         old="""            self.true_assignments.insert(label);
+            self.false_assignments.remove(label);""",
+         new="""            self.false_assignments.remove(label);
+            self.true_assignments.insert(label);"""),
+    dict(name="pm-get-false-first-ok", file=MODEL, rule="PM", props=["C15", "C09"], expect=None,
+         old="""        if self.true_assignments.contains(label) {
+            Some(true)
+        } else if self.false_assignments.contains(label) {
+            Some(false)""",
+         new="""        if self.false_assignments.contains(label) {
+            Some(false)
+        } else if self.true_assignments.contains(label) {
+            Some(true)"""),
+    dict(name="hs-satisfied-clause-breaks", file=CNF, rule="HS", props=["C15"], expect="satisfied-clause-skipped",
+         old="""                    continue 'outer;
+                } else if m.lit_neg_implied(*lit) {""",
+         new="""                    break;
+                } else if m.lit_neg_implied(*lit) {"""),
+    dict(name="hs-false-literal-multiplied", file=CNF, rule="HS", props=["C15"], expect="false-literal-skipped",
+         old="""                    // skip this literal and move onto the next one
+                    continue;""",
+         new="""                    cur_clause_v = cur_clause_v.wrapping_mul(*weight as u128);"""),
+    dict(name="hs-branches-reordered-ok", file=CNF, rule="HS", props=["C15"], expect=None,
+         old="""                if m.lit_implied(*lit) {
+                    // move onto the next clause without updating the
+                    // accumulator
+                    continue 'outer;
+                } else if m.lit_neg_implied(*lit) {
+                    // skip this literal and move onto the next one
+                    continue;
+                } else {""",
+         new="""                if m.lit_neg_implied(*lit) {
+                    continue;
+                } else if m.lit_implied(*lit) {
+                    continue 'outer;
+                } else {"""),
+    dict(name="ws-contains-by-position", file=UP, rule="WS", props=["C09"], expect="contains:Clause",
+         old="""                    self.watch_list_pos[candidate_unwatched].contains(&prev_watcher)""",
+         new="""                    self.watch_list_pos[candidate_unwatched].contains(&watcher_idx)"""),
+    dict(name="ws-push-position", file=UP, rule="WS", props=["C09"], expect="push:Clause",
+         old="""                    self.watch_list_pos[new_loc].push(prev_watcher);""",
+         new="""                    self.watch_list_pos[new_loc].push(watcher_idx);"""),
+    dict(name="ws-alias-ok", file=UP, rule="WS", props=["C09"], expect=None,
+         old="""                    self.watch_list_pos[candidate_unwatched].contains(&prev_watcher)""",
+         new="""                    {
+                        let this_clause: ClauseIdx = prev_watcher;
+                        self.watch_list_pos[candidate_unwatched].contains(&this_clause)
+                    }"""),
+    dict(name="tf-adjacent-pairs-only", file=UP, rule="TF", props=["C09"], expect="tautology-filter",
+         old="""                    for i in 0..clause.len() {
+                        for j in (i + 1)..clause.len() {
+                            if clause[i].label() == clause[j].label()
+                                && clause[i].polarity() != clause[j].polarity()
+                            {
+                                return false;
+                            }
+                        }
+                    }
+                    true""",
+         new="""                    !clause
+                        .windows(2)
+                        .any(|w| w[0].label() == w[1].label() && w[0].polarity() != w[1].polarity())"""),
+    dict(name="tf-inner-loop-from-zero-ok", file=UP, rule="TF", props=["C09"], expect=None,
+         old="""                        for j in (i + 1)..clause.len() {""", new="""                        for j in 0..clause.len() {"""),
+    dict(name="ec-empty-clause-as-short", file=UP, rule="EC", props=["C06", "C09"], expect="clause-length-0",
+         old="""            if c.is_empty() {
+                return None;
+            }
+            if c.len() == 1 {
+                implied.push(c[0]);
+                continue;
+            }""",
+         new="""            if c.len() < 2 {
+                implied.extend(c.first());
+                continue;
+            }"""),
+    dict(name="ec-unit-clause-watched", file=UP, rule="EC", props=["C09"], expect="clause-length-1",
+         old="""            if c.len() == 1 {
+                implied.push(c[0]);
+                continue;
+            }""",
+         new="""            if c.len() == 1 {
+                implied.push(c[0]);
+            }"""),
+    dict(name="ec-len-zero-test-ok", file=UP, rule="EC", props=["C06", "C09"], expect=None,
+         old="""            if c.is_empty() {
+                return None;
+            }""",
+         new="""            if c.len() == 0 {
+                return None;
+            }"""),
+    dict(name="sp2-sdd-short-clear-and-unmarked-descent", file=RS, rule="SP", props=["C10"], expect="count_nodes::count_h:descent",
+         old="""                BDD(node) | ComplBDD(node) => {
+                    ptr.set_scratch::<usize>(0);
+                    1 + count_h(node.low()) + 1 + count_h(node.high())
+                }""",
+         new="""                BDD(node) | ComplBDD(node) => 2 + count_h(node.low()) + count_h(node.high()),""",
+         more=[("src/repr/sdd/binary_sdd.rs", """        *(self.scratch.borrow_mut()) = None;
+""", """        if self.scratch.borrow_mut().take().is_none() {
+            return;
+        }
+"""), ("src/repr/sdd/sdd_or.rs", """        *(self.scratch.borrow_mut()) = None;
+""", """        if self.scratch.borrow_mut().take().is_none() {
+            return;
+        }
+""")]),
+    dict(name="sp2-sdd-short-clear-alone-ok", file="src/repr/sdd/binary_sdd.rs", rule="SP", props=["C10"], expect=None,
+         old="""        *(self.scratch.borrow_mut()) = None;
+""", new="""        if self.scratch.borrow_mut().take().is_none() {
+            return;
+        }
+""", more=[("src/repr/sdd/sdd_or.rs", """        *(self.scratch.borrow_mut()) = None;
+""", """        if self.scratch.borrow_mut().take().is_none() {
+            return;
+        }
+""")]),
+    dict(name="se-eq-pointer-fast-path", file=SEM, rule="SE", props=["C11"], expect="SE2:eq-by-hash",
+         old="""        let h1 = a.cached_semantic_hash(&self.vtree, &self.map);
+        let h2 = b.cached_semantic_hash(&self.vtree, &self.map);
+        h1 == h2""",
+         new="""        if a.is_const() || a.is_var() || b.is_const() || b.is_var() {
+            return a == b;
+        }
+        let h1 = a.cached_semantic_hash(&self.vtree, &self.map);
+        let h2 = b.cached_semantic_hash(&self.vtree, &self.map);
+        h1 == h2"""),
+    dict(name="se-eq-hashes-swapped-ok", file=SEM, rule="SE", props=["C11"], expect=None,
+         old="""        h1 == h2""", new="""        h2 == h1"""),
+    dict(name="vo-force-order-filters", file=CNF, rule="VO", props=["C14"], expect="force_order:permutation-preserved",
+         old="""            let mut avg_cog: Vec<(f64, usize)> = avg_cog.into_iter().zip(0..l).collect();""",
+         new="""            let mut avg_cog: Vec<(f64, usize)> = avg_cog.into_iter().zip(0..l).filter(|(c, _)| *c > 0.0).collect();"""),
+    dict(name="vo-force-order-match-ok", file=CNF, rule="VO", props=["C14"], expect=None,
+         old="""                .map(|(total, cnt)| if cnt == 0 { 0.0 } else { total / (cnt as f64) })""",
+         new="""                .map(|(total, cnt)| match cnt {
+                    0 => 0.0,
+                    _ => total / (cnt as f64),
+                })"""),
+]
